@@ -281,4 +281,121 @@ Proof.
   destruct Hend as [Hend|[-> Hend]]; [left|right; split; auto]; blia.
 Qed.
 
+
+(* ---- the chain of continuation chunks ---- *)
+
+Fixpoint ochk_fuel (ks : list ochk) : nat :=
+  match ks with
+  | [] => O
+  | k :: r => match r with
+              | [] => length (k_a k ++ k_b k) + S O
+              | _ :: _ => length (k_a k) + S (length (k_b k) + S (ochk_fuel r))
+              end
+  end.
+
+Lemma link_msg_size ad sz : chunk_size_v2 [cont_msg os ls sbBE ad sz] = link_size os ls.
+Proof.
+  rewrite chunk_size_v2_cons. unfold cont_msg. cbn [hm_data]. rewrite blen_app, !blen_enc_uint.
+  change (chunk_size_v2 []) with 0. unfold link_size. blia.
+Qed.
+
+Lemma chunk_msgs_size a b pos r :
+  chunk_size_v2 (chunk_msgs os ls sbBE a b (next_link os ls pos r))
+  = chunk_size_v2 a + (if is_nil r then 0 else link_size os ls) + chunk_size_v2 b.
+Proof.
+  destruct r as [|k' r']; cbn [next_link chunk_msgs is_nil].
+  - rewrite chunk_size_v2_app. blia.
+  - rewrite !chunk_size_v2_app, link_msg_size. blia.
+Qed.
+
+Lemma wf_ochk_inv k : wf_ochk k = true ->
+  wf_msgs_c (k_a k) = true /\ wf_msgs_c (k_b k) = true /\ blen (k_gap k) < 4 /\ blen (k_ck k) = 4.
+Proof.
+  unfold wf_ochk. intros H. apply andb_true_iff in H as [H H4]. apply andb_true_iff in H as [H H3].
+  apply andb_true_iff in H as [H1 H2]. apply N.ltb_lt in H3. apply N.eqb_eq in H4. auto.
+Qed.
+
+(* what the file holds where a chain of continuation chunks starts *)
+Lemma ochk_head pos k r :
+  file_at file pos (build_ochks os ls sbBE pos (k :: r)) -> wf_ochk k = true ->
+  let addr := pos + blen (k_between k) in
+  let size := ochk_size os ls k (is_nil r) in
+  let ms := chunk_msgs os ls sbBE (k_a k) (k_b k) (next_link os ls (addr + size) r) in
+  file_at file addr OCHK /\ file_at file (addr + 4) (body_v2 ms) /\ addr + size <= blen file /\
+  chunk_size_v2 ms + blen (k_gap k) + 8 = size /\ 8 <= size /\
+  file_at file (addr + size) (build_ochks os ls sbBE (addr + size) r).
+Proof.
+  intros Hat Hwf addr size ms.
+  apply wf_ochk_inv in Hwf as (_ & _ & Hg & Hck).
+  cbn [build_ochks] in Hat. fold addr size ms in Hat.
+  apply fa_app_r in Hat. fold addr in Hat.
+  assert (Hsz : chunk_size_v2 ms + blen (k_gap k) + 8 = size).
+  { subst ms size. rewrite chunk_msgs_size. unfold ochk_size. blia. }
+  assert (Hbl : blen (enc_ochk ms (k_gap k) (k_ck k)) = size).
+  { unfold enc_ochk. rewrite !blen_app, blen_body_v2, Hck. change (blen OCHK) with 4. blia. }
+  pose proof (fa_app_l _ _ _ _ Hat) as H1. pose proof (fa_app_r _ _ _ _ Hat) as H2. rewrite Hbl in H2.
+  pose proof (fa_bound _ _ _ H1) as Hb. rewrite Hbl in Hb.
+  unfold enc_ochk in H1.
+  repeat split; auto; try blia.
+  - apply fa_app_l in H1. exact H1.
+  - apply fa_app_r in H1. apply fa_app_l in H1. exact H1.
+Qed.
+
+Lemma existsb_fresh a vis : Forall (fun v => v < a) vis -> existsb (N.eqb a) vis = false.
+Proof.
+  induction 1 as [|v l Hv _ IH]; [reflexivity|]. cbn [existsb]. rewrite IH.
+  replace (a =? v) with false by (symmetry; apply N.eqb_neq; blia). reflexivity.
+Qed.
+
+Lemma ochks_loop : forall r k pos vis,
+  file_at file pos (build_ochks os ls sbBE pos (k :: r)) ->
+  forallb wf_ochk (k :: r) = true ->
+  Forall (fun v => v < pos + blen (k_between k) + 1) vis ->
+  (length vis + length r <= 1024)%nat ->
+  LOOP (ochk_fuel (k :: r)) true (pos + blen (k_between k) + 4)
+       (pos + blen (k_between k) + ochk_size os ls k (is_nil r) - 4) [] vis
+  = Ok (msgs_ochks os ls sbBE pos (k :: r)).
+Proof.
+  induction r as [|k' r' IH]; intros k pos vis Hat Hwf Hvis Hlen.
+  - cbn [forallb] in Hwf. apply andb_true_iff in Hwf as [Hk _].
+    destruct (ochk_head pos k [] Hat Hk) as (Hsig & Hbody & Hb & Hsz & Hs8 & _).
+    apply wf_ochk_inv in Hk as (Hwa & Hwb & Hg & Hck).
+    cbn [msgs_ochks is_nil next_link chunk_msgs ochk_fuel] in *. rewrite app_nil_r.
+    apply loop_chunk_last; auto; try blia;
+      try (rewrite wf_msgs_c_app, Hwa, Hwb; reflexivity); try (right; split; auto; blia).
+  - cbn [forallb] in Hwf. apply andb_true_iff in Hwf as [Hk Hr].
+    destruct (ochk_head pos k (k' :: r') Hat Hk) as (Hsig & Hbody & Hb & Hsz & Hs8 & Hnext).
+    pose proof Hr as Hr0. cbn [forallb] in Hr0. apply andb_true_iff in Hr0 as [Hk' _].
+    destruct (ochk_head _ k' r' Hnext Hk') as (Hsig' & _ & Hb' & _ & Hs8' & _).
+    apply wf_ochk_inv in Hk as (Hwa & Hwb & Hg & Hck).
+    cbn [msgs_ochks is_nil ochk_fuel] in *.
+    set (addr := pos + blen (k_between k)) in *.
+    set (size := ochk_size os ls k false) in *.
+    cbn [next_link chunk_msgs fst snd] in *.
+    set (ad := addr + size + blen (k_between k')) in *.
+    set (sz := ochk_size os ls k' (is_nil r')) in *.
+    apply loop_chunk_link; auto; try blia;
+      try (right; split; auto; blia);
+      try (apply existsb_fresh; eapply Forall_impl; [|exact Hvis]; cbn beta; intros v Hv; blia);
+      try (cbn [length] in Hlen; blia).
+    apply IH; auto.
+    + constructor; [blia|]. eapply Forall_impl; [|exact Hvis]. cbn beta. intros v Hv. blia.
+    + cbn [length] in *. blia.
+Qed.
+
+Lemma ochk_fuel_bound : forall ks pos, forallb wf_ochk ks = true ->
+  N.of_nat (ochk_fuel ks) <= blen (build_ochks os ls sbBE pos ks).
+Proof.
+  induction ks as [|k r IH]; intros pos Hwf; [cbn; blia|].
+  cbn [forallb] in Hwf. apply andb_true_iff in Hwf as [Hk Hr].
+  apply wf_ochk_inv in Hk as (_ & _ & _ & Hck).
+  cbn [build_ochks]. unfold enc_ochk. rewrite !blen_app, blen_body_v2, chunk_msgs_size, Hck.
+  change (blen OCHK) with 4.
+  pose proof (length_le_chunk (k_a k)). pose proof (length_le_chunk (k_b k)).
+  specialize (IH (pos + blen (k_between k) + ochk_size os ls k (is_nil r)) Hr).
+  destruct r as [|k' r']; cbn [ochk_fuel is_nil] in *.
+  - rewrite app_length. blia.
+  - unfold link_size. blia.
+Qed.
+
 End Loop.
